@@ -13,7 +13,7 @@
 From Coq Require Import ZArith.
 From Httoop Require Import Model.Composer Model.Http1Reader Proofs.Http1ReaderP Proofs.ComposerNum Proofs.ComposerHdrs Proofs.ComposerBody
   Proofs.ComposerFraming Proofs.ComposerRepeat Proofs.ComposerParse.
-From Httoop Require Import Model.Parser Proofs.RoundTrip.
+From Httoop Require Import Model.Parser Proofs.ParserFrag Proofs.ParserBridge Proofs.RoundTrip.
 Local Open Scope N_scope.
 
 (* the two number printers of the composer are read back by CPython's int() as modelled for the parser *)
@@ -106,6 +106,18 @@ Theorem C04_response_roundtrip : forall (C : ccallees) (PC : callees), lsplit_cl
       (init, [ {| m_line := line; m_hdrs := delivered_for fr (r_hdrs r') content; m_body := content |} ], None).
 Proof. exact response_roundtrip. Qed.
 Print Assumptions C04_response_roundtrip.
+
+(* ... however the composed octets are cut into parse() calls.  Whatever ONE call on a whole wire delivers while ending idle (the
+   two theorems above), every fragmentation of that wire delivers: on the reference machine always, and on the machine as
+   implemented ([real]) whenever it does not take one of its two buffer-dependent shortcuts ([quiet_run], findings D13/D14).
+   (The split of a chunk terminator between CR and LF, per-message state that survives on a reused machine - the classes of
+   the seeded changes C04-4 / C04-5 - are excluded by this statement, not only by the sampled fragmentations of the check.) *)
+Theorem C04_any_fragmentation : forall (PC : callees) (k : kind) (wire : bytes) (ms : list msg) (frags : list bytes),
+  parse reference PC k init wire = (init, ms, None) -> concat_bytes frags = wire ->
+  run_keep reference PC k init frags = (init, ms, None) /\
+  (quiet_run PC k init frags = true -> run_keep real PC k init frags = (init, ms, None)).
+Proof. exact whole_call_any_fragmentation. Qed.
+Print Assumptions C04_any_fragmentation.
 
 (* every field other than Content-Length / Transfer-Encoding is delivered with the (stripped) value it was composed with,
    and (requests) every field the composer does not manage is composed with the value the caller set *)
